@@ -87,7 +87,13 @@ var nilClass = regexp.MustCompile(`nil-pointer-dereference|interface-is-nil|inte
 func check(src string, mode int, run bool) verdict {
 	n := len(src)
 	b := budget(n)
-	res := parseOnly(src, mode, b)
+	var res runner.Result
+	if run {
+		// family (e): parse in the environment the program will run in (std library loaded)
+		res = runner.Run(src, runner.Opts{Mode: rmode(mode), Fuel: b, ParseOnly: true})
+	} else {
+		res = parseOnly(src, mode, b)
+	}
 	v := verdict{Outcome: res.Kind, Fuel: res.FuelUsed}
 	switch res.Kind {
 	case "panic":
@@ -137,7 +143,11 @@ func check(src string, mode int, run bool) verdict {
 		if nilClass.MatchString(cls) {
 			v.Clause = "accepted-is-complete"
 			v.Key = "accept-then-crash@" + frameOf(r2.PanicKey)
-			v.Detail = r2.PanicMsg
+			v.Detail = r2.PanicMsg + " in " + frameOf(r2.PanicKey)
+			if what, where := cure(src, mode, b); what != "" {
+				v.Key = "accept-then-crash:" + what
+				v.Detail += "; " + where
+			}
 			v.Outcome = "run:nil-crash"
 		} else {
 			v.Outcome = "run:other-panic"
@@ -317,25 +327,29 @@ func parseOnly(src string, mode int, fuel int64) (res runner.Result) {
 // samples is the function that never returns. With 16x the budget the reduced input still
 // does not finish => "hang"; if it does => "slow" (super-bound but terminating).
 func attributeHang(src string, mode int) (key, detail string) {
-	red := reduceText(src, mode, func(s string) bool { return exhausts(s, mode) })
+	// reduction uses a cheaper probe budget; the result is re-validated against the real one
+	red := reduceText(src, mode, func(s string) bool { return parseOnly(s, mode, probe(len(s))).Kind == "fuel" })
+	if k, ok := hangCache[red]; ok {
+		return k[0], k[1]
+	}
+	if red != src && !exhausts(red, mode) {
+		red = src
+	}
 	b := budget(len(red))
+	// sampling starts well past the finite part of the work on the reduced input
+	start := probe(len(red))
 	var common []string
-	var first []string
 	samples := 0
-	for k := int64(0); k < 400; k++ {
-		fr, ex := fuelStack(red, mode, b+k)
+	for k := int64(0); k < hangSamples; k++ {
+		fr, ex := fuelStack(red, mode, start+k)
 		if !ex {
 			break
 		}
 		samples++
 		if k == 0 {
 			common = fr
-			first = fr
 		} else {
 			common = commonPrefix(common, fr)
-			if k > 2 && equalFrames(fr, first) {
-				break // one full period seen
-			}
 		}
 	}
 	frame := "?"
@@ -350,8 +364,23 @@ func attributeHang(src string, mode int) (key, detail string) {
 	if _, ex := fuelStack(red, mode, big); !ex {
 		class = "slow"
 	}
-	return class + "@" + frame, fmt.Sprintf("budget(%d bytes)=%d ticks exhausted; %s confirmed with %d ticks; %d stack samples; reduced input %q", len(red), b, class, big, samples, red)
+	key = class + "@" + frame
+	detail = fmt.Sprintf("budget(%d bytes)=%d ticks exhausted; %s confirmed with %d ticks; innermost frame common to %d consecutive-tick stack samples; reduced input %q", len(red), b, class, big, samples, red)
+	hangCache[red] = [2]string{key, detail}
+	return
 }
+
+const hangSamples = 240
+
+func probe(n int) int64 {
+	p := int64(300*(n+1) + 5000)
+	if b := budget(n); p > b {
+		return b
+	}
+	return p
+}
+
+var hangCache = map[string][2]string{}
 
 func commonPrefix(a, b []string) []string {
 	n := 0
@@ -359,18 +388,6 @@ func commonPrefix(a, b []string) []string {
 		n++
 	}
 	return a[:n]
-}
-
-func equalFrames(a, b []string) bool {
-	if len(a) != len(b) {
-		return false
-	}
-	for i := range a {
-		if a[i] != b[i] {
-			return false
-		}
-	}
-	return true
 }
 
 // reduceText is a token-level delta reduction: suffix/prefix windows first (cheap on large
@@ -419,4 +436,43 @@ func reduceText(src string, mode int, bad func(string) bool) string {
 		}
 	}
 	return cur
+}
+
+// nilCrash reports whether src is accepted and its run ends in a nil-operand crash.
+func nilCrash(src string, mode int, b int64) bool {
+	r := runner.Run(src, runner.Opts{Mode: rmode(mode), Fuel: b + runFuel})
+	return r.Kind == "panic" && !r.PanicInParse && nilClass.MatchString(r.PanicKey)
+}
+
+// cure names the root cause of an accept-then-crash: if supplying ONE operand (a literal or a
+// variable), one name or one empty block at some token boundary makes the crash go away (the
+// repaired text is rejected or runs without a nil dereference), the parser accepted a source in
+// which that operand / name / block was missing. Otherwise "" and the key falls back to the frame.
+func cure(src string, mode int, b int64) (what, where string) {
+	toks, _ := crudeTokens(src)
+	cuts := []int{}
+	for _, t := range toks {
+		cuts = append(cuts, t.s)
+		cuts = append(cuts, t.e)
+	}
+	cuts = append(cuts, len(src))
+	if len(cuts) > 200 {
+		return "", ""
+	}
+	for _, ins := range []struct{ text, what string }{{" 1 ", "missing-operand"}, {" $a ", "missing-operand"}, {" X ", "missing-name"}, {" {} ", "missing-block"}} {
+		for i := len(cuts) - 1; i >= 0; i-- {
+			c := cuts[i]
+			if i+1 < len(cuts) && cuts[i+1] == c {
+				continue
+			}
+			if mode == 1 && c < 5 {
+				continue
+			}
+			cand := src[:c] + ins.text + src[c:]
+			if !nilCrash(cand, mode, b+1000) {
+				return ins.what, fmt.Sprintf("inserting %q at byte %d removes the crash", strings.TrimSpace(ins.text), c)
+			}
+		}
+	}
+	return "", ""
 }
